@@ -209,6 +209,39 @@ theorem C06_no_internal_error {ip : Interp} {Href Sref : Option Rat} {cp : List 
     (c.CpoR T).1 ≠ .error .internal ∧ (c.HoRT T).1 ≠ .error .internal ∧ (c.SoR T).1 ≠ .error .internal :=
   Incomplete.no_internal (Incomplete.mk_wf hmk).1 T
 
+/-- An array of temperatures passes the range check exactly when every element would pass it alone: one element outside
+the range (on either side, anywhere in the array) makes the whole request the outside-correlation error. -/
+theorem C06_array_checked_elementwise (range : Option Range) (Ts : List Rat) :
+    checkRangeArr range Ts = .ok () ↔ ∀ T ∈ Ts, checkRange range T = .ok () := by
+  cases range with
+  | none => simp [checkRangeArr, checkRange]
+  | some r =>
+    simp only [checkRangeArr, checkRange, outsideR]
+    constructor
+    · intro h T hT
+      by_cases h1 : (decide (T < r.1) || decide (T > r.2)) = true
+      · have : (Ts.any (fun T => decide (T < r.1)) || Ts.any (fun T => decide (T > r.2))) = true := by
+          rcases Bool.or_eq_true _ _ |>.mp h1 with a | a
+          · exact Bool.or_eq_true _ _ |>.mpr (Or.inl (List.any_eq_true.mpr ⟨T, hT, a⟩))
+          · exact Bool.or_eq_true _ _ |>.mpr (Or.inr (List.any_eq_true.mpr ⟨T, hT, a⟩))
+        simp [this] at h
+      · simp [h1]
+    · intro h
+      by_cases h1 : (Ts.any (fun T => decide (T < r.1)) || Ts.any (fun T => decide (T > r.2))) = true
+      · exfalso
+        rcases Bool.or_eq_true _ _ |>.mp h1 with a | a
+        · obtain ⟨T, hT, b⟩ := List.any_eq_true.mp a
+          have := h T hT
+          simp [b] at this
+        · obtain ⟨T, hT, b⟩ := List.any_eq_true.mp a
+          have := h T hT
+          simp [b] at this
+      · simp [h1]
+
+/-- non-vacuity: an array straddling the range is refused although its first and last elements are inside -/
+example : checkRangeArr (some (250, 1200)) [300, 1500, 500] = .error .outside := by decide +kernel
+example : checkRangeArr (some (250, 1200)) [300, 1200, 250] = .ok () := by decide +kernel
+
 /-- **Table obligation** (regenerated from the loaded libraries on every run): every group of every shipped library
 declares a range with positive lower end that contains its reference temperature and its tabulated span — the
 hypotheses `0 < lo` / "declares a range" of T4 hold for all shipped data, and the constructor guards pass. -/
